@@ -3399,7 +3399,12 @@ class Session(object):
         pool = self._pools.pop(host, None)
         if pool:
             log.debug("Removed connection pool for %r", host)
-            return self.submit(pool.shutdown)
+            future = self.submit(pool.shutdown)
+            if future is None:
+                # the session has been shut down meanwhile: nothing is submitted any more and
+                # shutdown() did not see this pool
+                pool.shutdown()
+            return future
         else:
             return None
 
